@@ -521,6 +521,10 @@ type ErrCase struct {
 	Format h.Str `json:"format"`
 	NArgs  int   `json:"nargs"`
 	Kind   string `json:"kind"`
+	// too-few-arguments only: the same format text is used first with Need (enough) arguments, through
+	// sprintf (1), printf (2) or a variable holding the format (3); 0: the failing call is its first use
+	Warm int `json:"warm,omitempty"`
+	Need int `json:"need,omitempty"`
 }
 
 func genErr(t *rapid.T) ErrCase {
@@ -538,7 +542,7 @@ func genErr(t *rapid.T) ErrCase {
 			sb.WriteString(rapid.SampledFrom(convs).Draw(t, "conv"))
 			need++
 		}
-		return ErrCase{Format: h.Str(sb.String()), NArgs: rapid.IntRange(0, need-1).Draw(t, "nargs"), Kind: "too-few-arguments"}
+		return ErrCase{Format: h.Str(sb.String()), NArgs: rapid.IntRange(0, need-1).Draw(t, "nargs"), Kind: "too-few-arguments", Need: need, Warm: rapid.IntRange(0, 3).Draw(t, "warm")}
 	case 1:
 		letter := rapid.SampledFrom([]string{"z", "y", "k", "!", "q", "v", "t", "b", "w", "m", "j", "p", "n", "B", "Q", "T", "U", "v", "@", "~", "I", "l", "h", "L"}).Draw(t, "letter")
 		return ErrCase{Format: h.Str("x%" + rapid.SampledFrom([]string{"", "5", "-", ".2", "05"}).Draw(t, "mid") + letter + "y"), NArgs: 3, Kind: "unknown-conversion"}
@@ -552,12 +556,29 @@ func runErr(x *h.Ctx, c ErrCase) string {
 	for i := 0; i < c.NArgs; i++ {
 		args = append(args, strconv.Itoa(i+1))
 	}
+	warm := ""
+	if c.Warm > 0 {
+		full := []string{awk.QuoteStr(string(c.Format))}
+		if c.Warm == 3 {
+			full[0] = "fmt_"
+			warm = "fmt_ = " + awk.QuoteStr(string(c.Format)) + "; "
+		}
+		for i := 0; i < c.Need; i++ {
+			full = append(full, strconv.Itoa(i+1))
+		}
+		if c.Warm == 2 {
+			warm += "printf " + strings.Join(full, ", ") + "; "
+		} else {
+			warm += "w_ = sprintf(" + strings.Join(full, ", ") + "); "
+		}
+		x.Class("format-used-before-with-enough-arguments")
+	}
 	for _, via := range []string{"printf", "sprintf"} {
 		var src string
 		if via == "printf" {
-			src = "BEGIN { print \"before\"; printf " + strings.Join(args, ", ") + "; print \"after\" }"
+			src = "BEGIN { print \"before\"; " + warm + "printf " + strings.Join(args, ", ") + "; print \"after\" }"
 		} else {
-			src = "BEGIN { print \"before\"; r = sprintf(" + strings.Join(args, ", ") + "); print \"after\" r }"
+			src = "BEGIN { print \"before\"; " + warm + "r = sprintf(" + strings.Join(args, ", ") + "); print \"after\" r }"
 		}
 		got, _, err := runAwk(src, "", false)
 		if strings.Contains(got, "%!") {
